@@ -11,7 +11,8 @@ VERIF = os.path.dirname(os.path.dirname(os.path.abspath(__file__)))
 NOTE = ("Trusted: Lean 4.33.0 kernel; axioms at most {propext, Classical.choice, Quot.sound} (audited per theorem on every run, "
         "sources scanned for sorry/native_decide/bv_decide/axiom); the hand-written L1 model (lean/Mctp/Model) and L2 specification "
         "(lean/Mctp/Spec); the Rust executor, Lean driver and Python orchestrator. The model is tied to /repo's working tree only by "
-        "this check's correspondence run (differential, generator-bounded). Modelled, not verified: Rust slice/index/cast/overflow "
+        "this check's correspondence run (differential, generator-bounded; exhaustive in-process sweeps where the domain allows; a static "
+        "inventory of the code's state-carrying constructs compared with the model's context). Modelled, not verified: Rust slice/index/cast/overflow "
         "semantics, the bitfield 0.14.0 macro expansion, smbus-pec's CRC, Cell. ")
 
 P = {
